@@ -33,10 +33,65 @@ import (
 
 var handlerNames = []string{"ie", "im", "om", "oe0", "oe1", "oe2"}
 
+// genSharedCase: a subtree S of height >= 2 reachable by a long path (listed first) and by a short one, with depth
+// limits around the two path lengths: the descendants of S that the long path cuts off are within the limit by
+// the short path, so the visitor has to re-explore S when it meets it again at the smaller depth.
+func genSharedCase(cr *vh.Rand, c *vh.Case) {
+	var lines []string
+	add := func(kind string, links ...int) int {
+		ls := make([]string, len(links))
+		for i, l := range links {
+			ls[i] = strconv.Itoa(l)
+		}
+		lines = append(lines, strings.TrimSpace(fmt.Sprintf("node %d %s %s", len(lines), kind, strings.Join(ls, " "))))
+		return len(lines) - 1
+	}
+	h := 2 + cr.Intn(2)
+	cur := add("ok")
+	for lvl := 0; lvl < h; lvl++ {
+		if cr.Chance(1, 3) {
+			extra := add("ok")
+			cur = add("ok", cur, extra)
+		} else {
+			cur = add("ok", cur)
+		}
+	}
+	s := cur
+	k := 1 + cr.Intn(3)
+	top := s
+	for j := 0; j < k; j++ {
+		top = add("ok", top)
+	}
+	short, shortDist, slow := s, 1, -1
+	if cr.Bool() {
+		short = add("ok", s) // B -> S
+		shortDist, slow = 2, short
+	}
+	root := add("ok", top, short)
+	c.Ops = append(c.Ops, lines...)
+	for w, m := 0, 2+cr.Intn(3); w < m; w++ {
+		lim := cr.Range(shortDist+1, k+1+h)
+		conc := vh.Pick(cr, []int{1, 1, 1, 2, 0, 5})
+		op := fmt.Sprintf("fetch %d %d %d -", root, lim, conc)
+		if slow >= 0 && conc != 1 {
+			op += fmt.Sprintf(" d%d", slow) // the node on the short path is slow to fetch
+		}
+		c.Ops = append(c.Ops, op)
+		if cr.Chance(1, 3) {
+			c.Ops = append(c.Ops, fmt.Sprintf("walk %d %d %d 0 1 -", root, lim, vh.Pick(cr, []int{1, 2, 4})))
+		}
+	}
+}
+
 func gen(r *vh.Rand, tier string, n int, emit func(vh.Case)) {
 	for i := 0; i < n; i++ {
 		cr := r.Fork()
 		c := vh.Case{ID: strconv.Itoa(i)}
+		if i%6 == 4 {
+			genSharedCase(cr, &c)
+			emit(c)
+			continue
+		}
 		nn := 1 + cr.Intn(12)
 		if cr.Chance(1, 4) {
 			nn = 8 + cr.Intn(33)
@@ -559,7 +614,14 @@ func exec(c vh.Case, o *vh.Out) {
 				return -1
 			}
 			local := blockstore.NewBlockstore(dssync.MutexWrap(ds.NewMapDatastore()))
-			bsv := blockservice.New(local, &fakeExchange{blocks: remote})
+			slow := map[string]bool{}
+			if len(f) > 5 && strings.HasPrefix(f[5], "d") {
+				for _, t := range strings.Split(f[5][1:], ",") {
+					slow[string(fc[vh.Atoi(t)].Hash())] = true
+				}
+				o.Kind("fetch-slow-node")
+			}
+			bsv := blockservice.New(local, &fakeExchange{blocks: remote, slow: slow})
 			dserv := merkledag.NewDAGService(bsv)
 			rec := &recorder{visited: map[int]bool{}}
 			opts := buildOpts(hs, rec, idx)
@@ -659,9 +721,13 @@ func exec(c vh.Case, o *vh.Out) {
 
 type fakeExchange struct {
 	blocks map[string]blocks.Block
+	slow   map[string]bool // blocks that take a while to arrive
 }
 
 func (e *fakeExchange) GetBlock(_ context.Context, c cid.Cid) (blocks.Block, error) {
+	if e.slow[string(c.Hash())] {
+		time.Sleep(15 * time.Millisecond)
+	}
 	if b, ok := e.blocks[string(c.Hash())]; ok {
 		return b, nil
 	}
